@@ -1092,11 +1092,9 @@ def c15_save(v):
 
 @LM.lemma("C19.book-writers", props=["C19"])
 def c19_writers(v):
-    """structure of the code that writes the two maps of the peer book (scan of the real source; the behaviour over event
-    sequences is exercised by the bounded part): only the known five functions write them; a key is entered into
-    `disconnected_peers` by the message handlers only under `key not in nm.connected_peers`; the connect handler removes the
-    key from `disconnected_peers` right after entering it into `connected_peers`; the disconnect handler removes it from
-    `connected_peers` before entering it into `disconnected_peers`."""
+    """the invariant argument of C19 needs that nothing but the functions verified against BOOK writes the two maps of the peer
+    book (scan of the real source), and the statement about retries needs the gate in step() (scanned: step() mutates the
+    waiting records in place through the map, which the executor's value records do not model)."""
     import ast, inspect, textwrap
     import skepticoin.networking.local_peer  # noqa
     import skepticoin.networking.manager as m
@@ -1115,52 +1113,6 @@ def c19_writers(v):
     def fn_ast(f):
         return ast.parse(textwrap.dedent(inspect.getsource(f))).body[0]
 
-    def is_sub(n, attr):
-        return isinstance(n, ast.Subscript) and isinstance(n.value, ast.Attribute) and n.value.attr == attr
-
-    # message handlers: every insertion into disconnected_peers sits in `elif key not in nm.connected_peers` of an
-    # `if key in nm.disconnected_peers` (same key expression)
-    for f in (rp.ConnectedRemotePeer.handle_hello_message_received, rp.ConnectedRemotePeer.handle_peers_message_received):
-        node = fn_ast(f)
-        bad = []
-        guarded = set()
-        for n in ast.walk(node):
-            if isinstance(n, ast.If) and isinstance(n.test, ast.Compare) and isinstance(n.test.ops[0], ast.In) \
-                    and isinstance(n.test.comparators[0], ast.Attribute) and n.test.comparators[0].attr == 'disconnected_peers' \
-                    and len(n.orelse) == 1 and isinstance(n.orelse[0], ast.If):
-                inner = n.orelse[0]
-                t = inner.test
-                if isinstance(t, ast.Compare) and isinstance(t.ops[0], ast.NotIn) and isinstance(t.comparators[0], ast.Attribute) \
-                        and t.comparators[0].attr == 'connected_peers' and ast.dump(t.left) == ast.dump(n.test.left):
-                    for x in ast.walk(inner):
-                        if isinstance(x, ast.Assign) and is_sub(x.targets[0], 'disconnected_peers') \
-                                and ast.dump(x.targets[0].slice) == ast.dump(t.left):
-                            guarded.add(x.lineno)
-        for x in ast.walk(node):
-            if isinstance(x, ast.Assign) and is_sub(x.targets[0], 'disconnected_peers') and x.lineno not in guarded:
-                bad.append(x.lineno)
-        v.oblige(st, z3.BoolVal(not bad), "C19:lemma:announced-peers-entered-only-when-not-connected:" + f.__name__,
-                 "unguarded insertions into disconnected_peers at relative lines %s" % bad)
-    # connect handler: connected[key] = peer is followed (same block) by `if key in disconnected: del disconnected[key]`
-    node = fn_ast(m.NetworkManager.handle_peer_connected)
-    ok = False
-    for k, s_ in enumerate(node.body):
-        if isinstance(s_, ast.Assign) and is_sub(s_.targets[0], 'connected_peers') and k + 1 < len(node.body):
-            nx = node.body[k + 1]
-            key = ast.dump(s_.targets[0].slice)
-            if isinstance(nx, ast.If) and isinstance(nx.test, ast.Compare) and isinstance(nx.test.ops[0], ast.In) \
-                    and ast.dump(nx.test.left) == key and isinstance(nx.test.comparators[0], ast.Attribute) \
-                    and nx.test.comparators[0].attr == 'disconnected_peers' and len(nx.body) == 1 and isinstance(nx.body[0], ast.Delete) \
-                    and is_sub(nx.body[0].targets[0], 'disconnected_peers') and ast.dump(nx.body[0].targets[0].slice) == key:
-                ok = True
-    v.oblige(st, z3.BoolVal(ok), "C19:lemma:connect-removes-the-key-from-the-waiting-map",
-             "handle_peer_connected: `connected_peers[key] = ...` directly followed by `if key in disconnected_peers: del ...`")
-    # disconnect handler: `del connected[key]` comes before `disconnected[key] = ...`, same key
-    node = fn_ast(m.NetworkManager.handle_peer_disconnected)
-    del_line = [x.lineno for x in ast.walk(node) if isinstance(x, ast.Delete) and is_sub(x.targets[0], 'connected_peers')]
-    ins_line = [x.lineno for x in ast.walk(node) if isinstance(x, ast.Assign) and is_sub(x.targets[0], 'disconnected_peers')]
-    v.oblige(st, z3.BoolVal(len(del_line) == 1 and all(l > del_line[0] for l in ins_line)),
-             "C19:lemma:disconnect-removes-before-it-enters", "del at %s, insertions at %s" % (del_line, ins_line))
     # the retry gate in step(): an outgoing connection is started only under the three conditions, and the attempt time is
     # recorded first (so that the back-off of is_time_to_connect - verified by contract - applies to the next attempt)
     node = fn_ast(m.NetworkManager.step)
